@@ -182,6 +182,22 @@ __CPROVER_decreases(NB - i)
                   canaries=[dict(name="reverse_edge_cost", where="body:rewire", rx=r"nbhIncCost = motionCostIdx\(NEWM, i\);", repl="nbhIncCost = motionCostIdx(i, NEWM);"),
                             dict(name="no_motion_check", where="body:rewire", rx=r"&&\s*checkMotionIdx\(NEWM, i\)", repl="")]))
 
+# small delegating functions (anchors PathLengthOptimizationObjective.cpp; GoalState.cpp for C01)
+TINY_RULES = [(r"si_->distance\(", "SI_DISTANCE(", 0), (r"si_->copyState\(", "SI_COPY(", 0), (r"\bCost\(", "COST(", 0), (r"identityCost\(\)", "IDENTITY_COST()", 0), (r"\bmotionCost\(", "pl_motionCost(", 0)]
+GSF = "src/ompl/base/goals/src/GoalState.cpp"
+PLF = "src/ompl/base/objectives/src/PathLengthOptimizationObjective.cpp"
+TINY_SRC = [dict(name="gs_distanceGoal", file=GSF, sig=r"double ompl::base::GoalState::distanceGoal\(const State \*st\) const", rules=TINY_RULES, loops={}),
+            dict(name="gs_sampleGoal", file=GSF, sig=r"void ompl::base::GoalState::sampleGoal\(base::State \*st\) const", rules=TINY_RULES, loops={}),
+            dict(name="pl_stateCost", file=PLF, sig=r"ompl::base::Cost ompl::base::PathLengthOptimizationObjective::stateCost\(const State \*\) const", rules=TINY_RULES, loops={}),
+            dict(name="pl_motionCost", file=PLF, sig=r"ompl::base::Cost ompl::base::PathLengthOptimizationObjective::motionCost\(const State \*s1, const State \*s2\) const", rules=TINY_RULES, loops={}),
+            dict(name="pl_motionCostHeuristic", file=PLF, sig=r"ompl::base::Cost ompl::base::PathLengthOptimizationObjective::motionCostHeuristic\(const State \*s1,\s*const State \*s2\) const", rules=TINY_RULES, loops={}),
+            dict(name="pl_motionCostBestEstimate", file=PLF, sig=r"ompl::base::Cost ompl::base::PathLengthOptimizationObjective::motionCostBestEstimate\(const State \*s1,\s*const State \*s2\) const", rules=TINY_RULES, loops={})]
+TINY_PL = dict(name="c04_pathlength_objective", template="C04/tiny.c", mode="plain", entry="h_pathlength", sources=TINY_SRC, needs=["pl_stateCost", "pl_motionCost", "pl_motionCostHeuristic", "pl_motionCostBestEstimate"], flags=PFLAGS, level="proof", backend="minisat", timeout=300,
+               functions=["PathLengthOptimizationObjective::motionCost / motionCostHeuristic / motionCostBestEstimate / stateCost"], canaries=[dict(name="heuristic_of_the_reverse_motion", where="body:pl_motionCostHeuristic", rx=r"pl_motionCost\(s1, s2\)", repl="pl_motionCost(s2, s1)")])
+TINY_GS = dict(name="c01_goalstate", template="C04/tiny.c", mode="plain", entry="h_goalstate", sources=TINY_SRC, needs=["gs_distanceGoal", "gs_sampleGoal"], flags=PFLAGS, level="proof", backend="minisat", timeout=300,
+               functions=["GoalState::distanceGoal", "GoalState::sampleGoal"], canaries=[dict(name="goal_overwritten_by_the_argument", where="body:gs_sampleGoal", rx=r"SI_COPY\(st, state_\)", repl="SI_COPY(state_, st)")])
+UNITS.append(TINY_PL)
+
 # BIT*'s incumbent update
 BITF = "src/ompl/geometric/planners/informedtrees/src/BITstar.cpp"
 BG_RULES = [
